@@ -394,3 +394,35 @@ Proof. intros Ha Hno Hol Hyp. unfold straighten_round.
       unfold get_cell. apply cell_of_in; auto. apply amo_cycle_at; exact Ha. }
   specialize (G sq (c, false, []) (fun q H => H) (round_inv_refl c old new Ha)).
   simpl. split; [apply G|split; [apply G|apply G]]. Qed.
+
+(* ---- the repaired straighten (fixes/D6.patch): `straighten_rx true` ------------------------------------------- *)
+(* the switch off is the current algorithm *)
+Theorem straighten_rx_false c r : straighten_rx false c r = straighten_r c r.
+Proof. reflexivity. Qed.
+
+Theorem fold_x_false c r : fold_x false c r = fold c r.
+Proof. reflexivity. Qed.
+
+(* on the D6 witness (and on the witness fold_stress found through the public straighten) the repaired
+   algorithm leaves no idle cycle, returns the same point, and the block holds the same operations *)
+Definition d6b_circuit : circuit :=
+  mkC 6 [2;2;2;2;2;2]
+      [ [Op false 3 [0] [14%Z;48%Z;98%Z] [2] []; Op false 3 [2] [40%Z;11%Z;98%Z] [2] []; Op false 2 [4] [27%Z] [2] [];
+         Op false 5 [5;1] [71%Z] [2;2] []];
+        [Op false 1 [0] [] [2] []];
+        [Op false 5 [0;1] [14%Z] [2;2] []];
+        [Op false 5 [3;1] [1%Z] [2;2] []];
+        [Op false 5 [3;4] [9%Z] [2;2] []];
+        [Op false 5 [4;0] [51%Z] [2;2] []];
+        [Op false 5 [0;2] [25%Z] [2;2] []] ].
+Definition d6b_region : region := [(0, (3, 6)); (2, (0, 6)); (4, (5, 5))].
+
+Theorem fold_x_repairs_d6 :
+  Inv (fst (fold_x true d6_circuit d6_region)) /\ snd (fold_x true d6_circuit d6_region) = OkN 2
+  /\ ~ Inv (fst (straighten_rx false d6b_circuit d6b_region))
+  /\ Inv (fst (straighten_rx true d6b_circuit d6b_region))
+  /\ Inv (fst (fold_x true d6b_circuit d6b_region))
+  /\ map (tl (fst (straighten_rx true d6b_circuit d6b_region))) (seq 0 6) = map (tl d6b_circuit) (seq 0 6).
+Proof. split; [apply inv_b_ok; vm_compute; reflexivity|]. split; [vm_compute; reflexivity|].
+  split; [apply idle_not_inv; vm_compute; reflexivity|]. split; [apply inv_b_ok; vm_compute; reflexivity|].
+  split; [apply inv_b_ok; vm_compute; reflexivity|]. vm_compute. reflexivity. Qed.
